@@ -56,7 +56,32 @@ type target struct {
 	NoZap   bool   // generated without Zap support
 }
 
-var annots = []struct{ name, text string }{{"Plain", ""}, {"Redacted", "go.redact"}, {"Nolog", "go.nolog"}, {"Both", "go.redact, go.nolog"}}
+type annot struct{ name, text, goName string }
+
+var annots = []annot{{"Plain", "", ""}, {"Redacted", "go.redact", ""}, {"Nolog", "go.nolog", ""}, {"Both", "go.redact, go.nolog", ""}}
+
+// annotsRenamed: the annotated fields also renamed with go.name (representative types only)
+var annotsRenamed = []annot{{"Plain", "", ""}, {"RedactedRenamed", `go.redact, go.name = "SecretX"`, "SecretX"}, {"NologRenamed", `go.nolog, go.name = "QuietX"`, "QuietX"},
+	{"BothRenamed", `go.name = "HushX", go.nolog, go.redact`, "HushX"}}
+
+// annotOrders: every order in which the four annotation sets can be declared in one struct
+func annotOrders() [][]annot {
+	var out [][]annot
+	var rec func(cur []annot, used int)
+	rec = func(cur []annot, used int) {
+		if len(cur) == len(annots) {
+			out = append(out, append([]annot{}, cur...))
+			return
+		}
+		for i, a := range annots {
+			if used&(1<<i) == 0 {
+				rec(append(cur, a), used|1<<i)
+			}
+		}
+	}
+	rec(nil, 0)
+	return out[1:] // the declaration order itself is the standard struct
+}
 
 // extra builds the C15 program (files r0.thrift ...) and the list of targets.
 func extra() (*schema.Program, []target) {
@@ -71,13 +96,14 @@ func extra() (*schema.Program, []target) {
 		cur = &schema.File{Path: fmt.Sprintf("r%d.thrift", len(p.Files)), Includes: []string{"./base.thrift"}}
 		p.Files = append(p.Files, cur)
 	}
-	fieldsFor := func(t *schema.Type, req schema.Requiredness) []schema.Field {
+	fieldsOf := func(t *schema.Type, req schema.Requiredness, as []annot) []schema.Field {
 		var fs []schema.Field
-		for i, a := range annots {
-			fs = append(fs, schema.Field{ID: int16(i + 1), Name: a.name, Type: t, Req: req, Annot: a.text})
+		for i, a := range as {
+			fs = append(fs, schema.Field{ID: int16(i + 1), Name: a.name, Type: t, Req: req, Annot: a.text, GoName: a.goName})
 		}
 		return fs
 	}
+	fieldsFor := func(t *schema.Type, req schema.Requiredness) []schema.Field { return fieldsOf(t, req, annots) }
 	reps := map[string]string{}
 	for i, te := range tes {
 		if cur == nil || len(cur.Defs) >= 6 {
@@ -112,6 +138,23 @@ func extra() (*schema.Program, []target) {
 						n++
 						cur.Defs = append(cur.Defs, &schema.Def{Kind: "struct", Name: wn, Fields: []schema.Field{{ID: 1, Name: "Holder", Type: c.t, Req: schema.Optional}}})
 						ts = append(ts, target{File: cur.Path, Pkg: pkg(cur.Path), Def: wn, Kind: "struct", Context: c.ctx, Inner: name, Label: te.Label})
+					}
+					// the same four fields renamed with go.name, as struct and as exception
+					for _, kd := range []string{"struct", "exception"} {
+						rn := fmt.Sprintf("R%d", n)
+						n++
+						cur.Defs = append(cur.Defs, &schema.Def{Kind: kd, Name: rn, Fields: fieldsOf(te.T, schema.Optional, annotsRenamed)})
+						ts = append(ts, target{File: cur.Path, Pkg: pkg(cur.Path), Def: rn, Kind: kd, Inner: rn, Label: te.Label + " renamed"})
+					}
+					// every other declaration order of the four annotation sets (string and list<string> only)
+					if te.Label == "string" || te.Label == "list<string>" {
+						newFile()
+						for _, order := range annotOrders() {
+							on := fmt.Sprintf("R%d", n)
+							n++
+							cur.Defs = append(cur.Defs, &schema.Def{Kind: "struct", Name: on, Fields: fieldsOf(te.T, schema.Optional, order)})
+							ts = append(ts, target{File: cur.Path, Pkg: pkg(cur.Path), Def: on, Kind: "struct", Inner: on, Label: te.Label + " reordered"})
+						}
 					}
 					newFile()
 				}
@@ -294,7 +337,7 @@ func explore(w *ev.W, p *schema.Program, conv *reflectval.Conv, f *schema.File, 
 				if w.WantSample() && fi == 1 && ai == 0 && bi == 1 && tg.Context != "" {
 					w.Sample(map[string]string{"case": desc, "String": s1, "zap": z1})
 				}
-				hasKey := strings.Contains(z1, "\""+fd.Name+"\":")
+				hasKey := strings.Contains(z1, "\""+fd.Name+"\":") || strings.Contains(z1, "\""+fd.GoIdent()+"\":")
 				switch {
 				case redact:
 					if s1 != s2 {
@@ -317,7 +360,7 @@ func explore(w *ev.W, p *schema.Program, conv *reflectval.Conv, f *schema.File, 
 					if hasKey && z1 != "" {
 						viol("nolog-field-logged", "a go.nolog field appears in zap output: "+z1)
 					}
-					if !strings.Contains(s1, fd.Name+":") {
+					if !strings.Contains(s1, fd.GoIdent()+":") {
 						viol("unredacted-field-missing-in-String", fmt.Sprintf("a go.nolog (not redacted) field is not shown by String(): %.200q", s1))
 					}
 					w.Outcome("nolog-independent")
